@@ -79,6 +79,11 @@ def gen_plan(seed, tier):
       desc["kind"] = "lowrank"
   plan = dict(run_seed=seed, cls=cls, dataset=desc, params=params, fits=fits)
   r2 = substream(seed, "c09-layout")
+  r3 = substream(seed, "c09-faults")
+  if cls == "Covariance" and r3.random() < 0.15:
+    plan["pinvh_fault"] = True          # the eigen-solver behind the pseudo-inverse fails once
+  if cls == "RCA" and r3.random() < 0.3:
+    plan["singleton_chunks"] = r3.randint(1, 3)
   if cls == "RCA" and r2.random() < 0.5:
     # chunklet ids are arbitrary non-negative integers: "chunks[i] == j: point i
     # belongs to chunklet j" (one-based ids, gaps, any order)
@@ -137,6 +142,20 @@ def run_plan(plan):
           X[t_] = X[src]
         done += 1
     cov["lfda_same_class_duplicates"] += int(done > 0)
+  if cls == "RCA" and plan.get("singleton_chunks"):
+    # chunklets of a single point are legal: they contribute a zero row to the scatter
+    rsg = np.random.RandomState(h64("c09-single", plan["run_seed"]) & 0xFFFFFFFF)
+    free = np.where(D.chunks < 0)[0]
+    nxt = int(D.chunks.max()) + 1
+    take = list(rsg.permutation(free)[:int(plan["singleton_chunks"])])
+    if len(take) < int(plan["singleton_chunks"]):
+      big = [c_ for c_ in np.unique(D.chunks[D.chunks >= 0]) if (D.chunks == c_).sum() >= 3]
+      for c_ in big[:int(plan["singleton_chunks"]) - len(take)]:
+        take.append(int(np.where(D.chunks == c_)[0][0]))
+    for t_ in take:
+      D.chunks[t_] = nxt
+      nxt += 1
+    cov["rca_singleton_chunks"] += int(len(take) > 0)
   if cls == "RCA":
     D.chunks = _relabel_chunks(D.chunks, plan.get("chunk_ids"), plan["run_seed"])
     cov["rca_chunk_ids_" + str(plan.get("chunk_ids") or "contiguous")] += 1
@@ -151,7 +170,8 @@ def run_plan(plan):
       c0, f0 = world.EIGSH.calls, world.EIGSH.forced
       g0 = world.EIGSH.eigh_forced
       est = getattr(ml, cls)(**p)
-      with world.observed() as wl:
+      pf = world.PinvhSeam(fail_first=bool(plan.get("pinvh_fault")))
+      with world.observed() as wl, pf:
         try:
           if cls == "Covariance":
             est.fit(X.copy())
@@ -171,8 +191,10 @@ def run_plan(plan):
       ev = dict(i=i, mode=ft["mode"], outcome=outcome, eigsh=[ncalls, nforced])
       events.append(ev)
       shape.append("%s/%d" % (ft["mode"], int(nforced > 0)))
+      if pf.fired:
+        cov["pinvh_fault_fired"] += 1
       if outcome != "ok":
-        if nforced:
+        if nforced or pf.fired:
           inconclusive.append("solver_exception_propagated_under_forced_failure")
           continue
         raise Violation("fit_raises", "cls=%s,exc=%s" % (cls, outcome[4:]),
